@@ -773,6 +773,9 @@ func (v *fnVC) trCall(x *CallE, env *Env) (T, types.Type) {
 	case "isTyped": // isTyped(e): e is nil or its dynamic type implements ucfg.Error
 		a, _ := v.tr(x.Args[0], env)
 		return or(eq(a, "(mkI 0 0)"), app("impl_ucfg_Error", app("itag", a))), types.Typ[types.Bool]
+	case "objref": // objref(x): the heap object a value / pointer refers to (a sub-config value: its *Config)
+		a, ty := v.tr(x.Args[0], env)
+		return v.refOf(a, ty), types.Typ[types.UnsafePointer]
 	case "allocated": // allocated(x): the object x refers to exists in the selected heap state
 		a, ty := v.tr(x.Args[0], env)
 		ref := a
